@@ -131,6 +131,8 @@ def per_build_caches(repo, run, rule):
         return
     if len(caches) < 2:
         raise AnalysisError('EvalContext caches not found')
+    if _per_build_caches_evaluated(repo, run, rule, fi):
+        return
     paths = tr.paths_of(repo, fi, no_inline={'evaluate_node'}, follow_exceptions=True)
     n = 0
     missing_before, missing_after = set(), set()
@@ -186,6 +188,63 @@ def per_build_caches(repo, run, rule):
             run.violation(rule, fi, 'self.%s.clear()' % cache, 'cache %s is not cleared %s the evaluation of a tree: values of one build leak into the next' % (cache, 'before' if cache in missing_before else 'after (finally)'))
         else:
             run.ok(rule, fi, 'self.%s cleared before evaluating and on every way out (%d paths incl. exceptional)' % (cache, n))
+
+
+def _per_build_caches_evaluated(repo, run, rule, fi):
+    """EvalContext.evaluate evaluated on a context built by its own constructor whose dict-valued caches all hold a stale entry:
+    when the tree is handed to evaluate_node (a stand-in that fills the caches and either returns or raises) every cache is empty,
+    and after the call - on the normal and on the exceptional way out - every cache is empty again. Returns False when the
+    evaluator cannot follow the code (the trace rule below then decides)."""
+    from ..fde import FDE, Obj, Unsupported, Raised
+    from .common import node_obj
+    init = repo.func('EvalContext.__init__')
+    bad = []
+    names = None
+    try:
+        for mode in ('returns', 'raises'):
+            ctx = Obj('ctx', 'EvalContext')
+            f0 = FDE(repo, max_depth=6)
+            f0.extcalls = {'copy.copy': lambda x: dict(x) if isinstance(x, dict) else x, 'copy.deepcopy': lambda x: dict(x) if isinstance(x, dict) else x}
+            if f0.call(init, ctx).raised:
+                return False
+            names = sorted(k for k, v in ctx.f.items() if k.startswith('_eval_cache') and isinstance(v, dict))
+            if len(names) < 2:
+                return False
+            for c in names:
+                ctx.f[c]['stale'] = 'STALE'
+            seen = []
+
+            def stub(name, recv, a, k, ctx=ctx, seen=seen, mode=mode):
+                if name == 'evaluate_node':
+                    seen.append({c: dict(ctx.f[c]) if isinstance(ctx.f.get(c), dict) else ctx.f.get(c) for c in names})
+                    for c in names:
+                        if isinstance(ctx.f.get(c), dict):
+                            ctx.f[c]['new'] = 'NEW'
+                    if mode == 'raises':
+                        raise Raised('EvalError')
+                    return 'RESULT'
+                raise Unsupported('call of ' + name)
+            f = FDE(repo, stubs={'evaluate_node'}, stub=stub, max_depth=8)
+            holder = lambda *a, **k: Obj('holder', 'EvalContext.PartialChild')      # noqa: E731
+            f.constructors = {'Bunch': lambda *a, **k: ('Bunch',), 'PartialChild': holder, 'EvalContext.PartialChild': holder, 'NodePath': lambda *a, **k: []}
+            r = f.call(fi, ctx, node_obj('tree', 'ConfigDict'))
+            if len(seen) != 1 or (mode == 'returns' and (r.raised or r.ret != 'RESULT')) or (mode == 'raises' and not r.raised):
+                return False
+            for c in names:
+                if seen[0][c]:
+                    bad.append((c, 'before'))
+                if ctx.f.get(c):
+                    bad.append((c, 'after (%s)' % ('finally' if mode == 'raises' else 'normal return')))
+    except (Unsupported, Raised, AnalysisError):
+        return False
+    run.table(rule, 2, 'EvalContext.evaluate with stale caches (evaluation returns / raises)')
+    for c in names:
+        w = sorted({x[1] for x in bad if x[0] == c})
+        if w:
+            run.violation(rule, fi, 'self.%s.clear()' % c, 'cache %s is not cleared %s the evaluation of a tree: values of one build leak into the next' % (c, ' / '.join(w)))
+        else:
+            run.ok(rule, fi, 'self.%s empty when the tree is evaluated and on every way out (evaluated)' % c)
+    return True
 
 
 def evaluate_a_copy(repo, run, rule):
